@@ -33,7 +33,11 @@ pub enum Verdict {
 
 #[derive(Debug, Clone, PartialEq, Eq)]
 pub struct Info {
-    /// also conforms to "Namespaces in XML 1.0"
+    /// also conforms to "Namespaces in XML 1.0".  Attribute defaulting is
+    /// not modelled: documents whose ATTLISTs declare `xmlns`/`xmlns:*`
+    /// attributes or prefixed attributes with a default value get `false`
+    /// with the marker violations "attlist-xmlns" /
+    /// "attlist-prefixed-default" (meaning "not judged", stay away).
     pub ns_well_formed: bool,
     pub ns_violation: Option<&'static str>,
     pub has_doctype: bool,
@@ -120,6 +124,7 @@ pub const OUTSIDE_REASONS: &[&str] = &[
     "entity-expansion-limit",
     "predefined-entity-redeclared",
     "cdata-end-in-entity-used-in-attr",
+    "indirect-undeclared-entity-in-attlist-default",
 ];
 
 /// Every value `Info::ns_violation` can take.
@@ -140,6 +145,7 @@ pub const NS_VIOLATIONS: &[&str] = &[
     "empty-prefix-binding",
     "dup-expanded-attr",
     "attlist-xmlns",
+    "attlist-prefixed-default",
 ];
 
 /// Offset of the first character that is not a [2] Char, and whether the
